@@ -26,6 +26,16 @@
   OBLIGATION c13_number_any_fuel
   OBLIGATION c13_number_pinned
   OBLIGATION c13_number_pinned_vs_spec
+  OBLIGATION c13_full_violated_by_emptyStringBeforeQuote
+  OBLIGATION c13_tokens
+  OBLIGATION c13_ignored
+  OBLIGATION c13_name
+  OBLIGATION c13_punctuator
+  OBLIGATION c13_spread
+  OBLIGATION c13_keyword
+  OBLIGATION c13_keyword_compound
+  OBLIGATION c13_number_token
+  OBLIGATION c13_string_token
   OPEN c13_full
 -/
 import AGV.Lemmas.ParseC13
@@ -34,6 +44,7 @@ import AGV.Lemmas.ParseC13Depth
 import AGV.Lemmas.ParseC13Block
 import AGV.Lemmas.ParseC13Number
 import AGV.Lemmas.ParseC13PairsWf
+import AGV.Lemmas.PegC13TokSpec
 
 namespace AGV.Props.C13
 open AGV.Model.BuildAst AGV.Core.PAst AGV.Lemmas.ParseC13
@@ -114,6 +125,17 @@ theorem c13_full_violated_by_numberDigitFollow :
      | .ok p _ _ => p == 1
      | _ => false) = true := by
   constructor <;> decide
+
+/-- `{a(b:["""" ""])}`: four quotes open a block string that is never closed, so the text is no
+    token sequence; the pinned `string` rule falls back to the plain alternative and reads three
+    empty strings (the real parser accepts it).  Repaired by `!"\"\"\""` before the plain alternative. -/
+theorem c13_full_violated_by_emptyStringBeforeQuote :
+    AGV.Spec.Parse.parseDocument {} "{a(b:[\"\"\"\" \"\"])}".toList = none ∧
+    (match parseQuery { emptyStringBeforeQuote := true } "{a(b:[\"\"\"\" \"\"])}".toList with
+     | .ok _ => true | .error _ => false) = true ∧
+    (match parseQuery {} "{a(b:[\"\"\"\" \"\"])}".toList with
+     | .ok _ => true | .error _ => false) = false := by
+  refine ⟨?_, ?_, ?_⟩ <;> decide
 
 -- ------------------------------------------------------------------ open statements
 
@@ -252,6 +274,159 @@ theorem c13_depth_hyp_of_parse_pinned (f : Nat) (c : AGV.Model.Peg.Ctx) (e : AGV
     (h : AGV.Model.Peg.eval AGV.Gen.Grammar.grammar f c e p s = .ok p' s' ps) :
     ∀ q ∈ ps, SetsNonEmpty q :=
   pairs_wf_pinned f c e p s p' s' ps h
+
+-- ------------------------------------------------------------------ token-level refinement (towards c13_full)
+
+section Tokens
+open AGV.Lemmas.PegX AGV.Model.Peg AGV.Spec.Lex
+
+/-- The specification's lexer as a total stream: `toks s` lists the tokens of `s` and ends in the
+    impossible token `bad` where no token can be read; `tokens s` is `toks s` when `bad` does not
+    occur and fails otherwise; `toks` is computed token by token after skipping Ignored tokens. -/
+theorem c13_tokens (s : List Char) :
+    (bad ∉ toks s → tokens s = some (toks s)) ∧ (bad ∈ toks s → tokens s = none) ∧
+    (skipI s = [] → toks s = []) ∧
+    (∀ c t tok rest, skipI s = c :: t → lexToken (c :: t) = some (tok, rest) → toks s = tok :: toks rest) ∧
+    (∀ c t, skipI s = c :: t → lexToken (c :: t) = none → toks s = [bad]) :=
+  ⟨tokens_some s, tokens_none s, toks_nil, fun _ _ _ _ h1 h2 => toks_cons h1 h2, fun _ _ h1 h2 => toks_bad h1 h2⟩
+
+/-- pest's implicit skipping (`WHITESPACE* ~ (COMMENT ~ WHITESPACE*)*`, run atomically, as between
+    the elements of every sequence and repetition of a non-atomic rule) on ANY text: it consumes a
+    prefix, emits nothing, stops exactly where the specification's Ignored tokens (UnicodeBOM,
+    WhiteSpace, LineTerminator, Comma, Comment) end (`skipI`, the skipping loop of `lexAll`), and
+    what it consumed is invisible to the specification's lexer. -/
+theorem c13_ignored (c : Ctx) (hc : c.atom = .atomic) (p : Nat) (s : List Char) (f : Nat)
+    (hf : 2 * s.length + 17 ≤ f) :
+    eval (grammarFor Defects.none) f c skipExpr p s = .ok (p + (s.length - (skipI s).length)) (skipI s) [] ∧
+      TokStart (skipI s) ∧ toks (skipI s) = toks s ∧ tokens (skipI s) = tokens s ∧
+      ∃ pre, s = pre ++ skipI s :=
+  skip_spec c hc p s f hf
+
+example : skipI " ,\t#c\n\r\n x #d".toList = "x #d".toList := by decide
+
+/-- The `name` rule on ANY text, in any context, at any position: it matches iff the
+    specification's lexer reads a Name token there, consumes exactly that token, and emits one
+    `name` pair spanning it (none inside atomic rules and lookaheads). -/
+theorem c13_name (c : Ctx) (p : Nat) (s : List Char) (f : Nat) (hf : s.length + 8 ≤ f) :
+    eval (grammarFor Defects.none) f c (.ident "name") p s =
+      (match lexToken s with
+       | some (.name n, rest) =>
+         .ok (p + n.length) rest (if emits c then [Pair.mk "name" p (p + n.length) []] else [])
+       | _ => .fail) :=
+  name_spec c p s f hf
+
+/-- A one-character literal that is a Punctuator (`! $ & ( ) : = @ [ ] { | }`), in any grammar and
+    context: it matches iff the specification's next token is that Punctuator, leaving the same rest. -/
+theorem c13_punctuator (g : Grammar) (c : Ctx) (x : Char) (hx : isPunct x = true) (p : Nat) (s : List Char)
+    (f : Nat) (hf : 1 ≤ f) :
+    eval g f c (.str [x]) p s =
+      (match lexToken s with
+       | some (.punct y, rest) => if y = x then .ok (p + 1) rest [] else .fail
+       | _ => .fail) := by
+  rw [punct_spec g c x hx p s f hf, punctTok]
+  cases lexToken s with
+  | none => rfl
+  | some y =>
+    obtain ⟨tok, rest⟩ := y
+    cases tok with
+    | punct y => by_cases e : y = x <;> simp [resOf, e]
+    | _ => rfl
+
+example : isPunct '{' = true := by decide
+
+/-- `"..."` matches iff the next token is the spread Punctuator. -/
+theorem c13_spread (g : Grammar) (c : Ctx) (p : Nat) (s : List Char) (f : Nat) (hf : 1 ≤ f) :
+    eval g f c (.str ['.', '.', '.']) p s =
+      (match lexToken s with
+       | some (.spread, rest) => .ok (p + 3) rest []
+       | _ => .fail) := by
+  rw [spread_spec g c p s f hf, spreadTok]
+  cases lexToken s with
+  | none => rfl
+  | some y => obtain ⟨tok, rest⟩ := y; cases tok <;> rfl
+
+/-- A keyword literal of the repaired grammar (`&kw_x ~ "x"` for `query`, `mutation`,
+    `subscription`, `fragment`, `on`, `true`, `false`, `null`) in a non-atomic rule, at the start of
+    a token: it matches iff the specification's next token is the Name `x` (so `queryfoo` is not
+    `query`), leaving the same rest. -/
+theorem c13_keyword (x : List Char) (hx : x ∈ kwList) (c : Ctx) (hc : c.atom = .non) (p : Nat) (s : List Char)
+    (hs : TokStart s) (f : Nat) (hf : 2 * s.length + 19 ≤ f) :
+    eval (grammarFor Defects.none) f c (.seq (.pos (.ident (kwRuleName x))) (.str x)) p s =
+      (match lexToken s with
+       | some (.name n, rest) => if n = x then .ok (p + x.length) rest [] else .fail
+       | _ => .fail) := by
+  rw [keyword_spec x hx c hc p s hs f hf, kwTok]
+  cases lexToken s with
+  | none => rfl
+  | some y =>
+    obtain ⟨tok, rest⟩ := y
+    cases tok with
+    | name n => by_cases e : n = x <;> simp [resOf, e]
+    | _ => rfl
+
+example : "fragment".toList ∈ kwList ∧ TokStart "fragment F on T{a}".toList :=
+  ⟨by decide, tokStart_cons (by decide) (by decide)⟩
+
+/-- … and inside a compound-atomic rule (the `!(boolean | null)` guard of `enum_value`), anywhere. -/
+theorem c13_keyword_compound (x : List Char) (hx : x ∈ kwList) (c : Ctx) (hc : c.atom ≠ .non) (p : Nat)
+    (s : List Char) (f : Nat) (hf : 10 ≤ f) :
+    eval (grammarFor Defects.none) f c (.seq (.pos (.ident (kwRuleName x))) (.str x)) p s =
+      (match lexToken s with
+       | some (.name n, rest) => if n = x then .ok (p + x.length) rest [] else .fail
+       | _ => .fail) := by
+  rw [keyword_spec_tight x hx c hc p s f hf, kwTok]
+  cases lexToken s with
+  | none => rfl
+  | some y =>
+    obtain ⟨tok, rest⟩ := y
+    cases tok with
+    | name n => by_cases e : n = x <;> simp [resOf, e]
+    | _ => rfl
+
+/-- The repaired `number` rule, exactly (positions and pairs included), on ANY text in any context:
+    it matches iff the specification's next token is an IntValue or FloatValue, consumes exactly
+    that token and emits one `number` pair spanning it. -/
+theorem c13_number_token (c : Ctx) (p : Nat) (s : List Char) (f : Nat) (hf : s.length + 21 ≤ f) :
+    eval (grammarFor Defects.none) f c (.ident "number") p s =
+      (match lexToken s with
+       | some (.int n d, rest) =>
+         .ok (p + (s.length - rest.length)) rest
+           (if emits c then [Pair.mk "number" p (p + (s.length - rest.length)) []] else [])
+       | some (.float n i fr e x, rest) =>
+         .ok (p + (s.length - rest.length)) rest
+           (if emits c then [Pair.mk "number" p (p + (s.length - rest.length)) []] else [])
+       | _ => .fail) := by
+  rw [number_spec c p s f hf, numberSpecRes, numTok]
+  cases lexToken s with
+  | none => rfl
+  | some y => obtain ⟨tok, rest⟩ := y; cases tok <;> rfl
+
+/-- The repaired `string` rule (block strings and quoted strings) on ANY text, where pairs are
+    emitted: it matches iff the specification's next token is a StringValue, leaves the same rest,
+    emits `string[content]`, and the tree builder (`parse_value` on a `value` pair holding it)
+    computes exactly the token's value — escapes decoded, `BlockStringValue()` applied; otherwise
+    the rule fails.  `pre` is the text before the token (pairs carry absolute positions). -/
+theorem c13_string_token (pre s : List Char) (c : Ctx) (hl : c.look = false) (hna : c.atom ≠ .atomic) (f : Nat)
+    (hf : s.length + 22 ≤ f) :
+    match lexToken s with
+    | some (.str v, rest) =>
+      ∃ q, eval (grammarFor Defects.none) f c (.ident "string") pre.length s =
+          .ok (pre.length + (s.length - rest.length)) rest
+            [Pair.mk "string" pre.length (pre.length + (s.length - rest.length)) [q]] ∧
+        buildValue ⟨Defects.none, (pre ++ s).toArray⟩ 1
+          (Pair.mk "value" pre.length (pre.length + (s.length - rest.length))
+            [Pair.mk "string" pre.length (pre.length + (s.length - rest.length)) [q]]) = .ok (.str v)
+    | _ => eval (grammarFor Defects.none) f c (.ident "string") pre.length s = .fail := by
+  have h := string_spec pre s c hl hna f hf
+  unfold strTok at h
+  cases hl : lexToken s with
+  | none => rw [hl] at h; exact h
+  | some y =>
+    obtain ⟨tok, rest⟩ := y
+    rw [hl] at h
+    cases tok <;> exact h
+
+end Tokens
 
 /-- The statement without the hypothesis (as it stood under OPEN) … -/
 def c13_depth_unrestricted : Prop :=
